@@ -3,6 +3,8 @@ import importlib
 
 # property -> list of (rule module, configs it needs in quick tier)
 PROPERTY_RULES = {
+    "C05": ["r_b1", "r_o3"],
+    "C06": ["r_b1", "r_o3"],
     "C10": ["r_c2", "r_e1"],
     "C11": ["r_c2", "r_e1"],
     "C14": ["r_d1"],
@@ -12,6 +14,11 @@ PROPERTY_RULES = {
 LEVEL = {"C14": "proof"}
 
 CLAUSES = {
+    "C05": "free/take-over decisions are taken on the result of the atomic RMW itself (fetch_sub == 1; CAS 1->0; publishing CAS of a fresh control block "
+           "whose loser uses the winner's value); every take-over is dominated by a uniqueness test",
+    "C06": "every atomic site has at least the ordering its role requires (decrement >= Release; Acquire before free; Acquire uniqueness test before "
+           "take-over; publishing CAS Release/Acquire; dereferenced loads of a mutable data pointer >= Acquire) and every take-over event is dominated "
+           "by such a test locally or at all call sites",
     "C10": "every typed getter uses the conversion/type/byte order/width its name promises, get_X and try_get_X decode identically, "
            "error fields and cursor movement use the value width; no profile-dependent arithmetic on caller-controlled integers in the decoders",
     "C11": "every typed putter uses the conversion/type/byte order/width its name promises (be = tail, le = head slicing of the 8-byte encoding)",
@@ -27,6 +34,8 @@ LEVEL_NOTE = {
     "C14": "trusted: rustc type checking/trait resolution, std slice comparison and hash impls, std views (as_bytes, deref, [..]); views show the contents (C01).",
 }
 TECHNIQUE = {
+    "C05": "role classification of all atomic sites + dominance of free/take-over events by the deciding RMW edge (MIR CFG dominators, interprocedural over call sites)",
+    "C06": "ordering-by-role conformance at all atomic sites (release/acquire recipe) + dominating Acquire-guard analysis for take-over events",
     "C14": "MIR orientation/delegation analysis over rustc-resolved callees (custom rustc_private driver)",
     "C10": "name-grammar vs decode-signature agreement over MIR callees, sibling agreement get/try_get, taint+guard analysis of overflow asserts",
     "C11": "name-grammar vs encode-signature agreement over MIR callees, taint+guard analysis of overflow asserts",
